@@ -2,6 +2,7 @@ import RxModel.Lemmas.Lift
 import RxModel.Props.C05
 import RxModel.Props.C09
 import RxModel.Props.C02
+import RxModel.Props.C20
 /-!
 # C11 — streaming promptness: results are emitted with the item that determines them
 
@@ -139,5 +140,83 @@ theorem C11_chunks_nested (P : Pipe) (h : P.Nested) (k : Key) (xs : List Val) :
 /-- the local chunk of `wrap` for one item: the inner operator run on the commands of that item -/
 theorem C11_wrap_local_chunk {α β} (ls : LSplit α) (L : LocalOp α β) (s : (localWrap ls L).σ) (x : α) :
     ((localWrap ls L).next s x).2 = (runGroup (cmdStep L) s.2 (ls.next s.1 x).2).2.map demuxL := rfl
+
+/-! ## batch: a batch is emitted with its closing (n-th) item -/
+
+theorem stateAfter_snoc {σ α β} (next : σ → α → σ × List β) : ∀ (xs : List α) (s : σ) (x : α),
+    stateAfter next s (xs ++ [x]) = (next (stateAfter next s xs) x).1 := by
+  intro xs
+  induction xs with
+  | nil => intro s x; rfl
+  | cons y ys ih => intro s x; simp only [List.cons_append, stateAfter, ih]
+
+/-- the scan state of `batch(n)` after any items: the pending items are those after the last full batch -/
+theorem batch_pending {α : Type} (n : Nat) (hn : 0 < n) : ∀ (xs : List α) (s : Option (List α × Bool)),
+    (pendingOf s).length < n →
+    pendingOf (stateAfter (bNext n) s xs) = (pendingOf s ++ xs).drop ((pendingOf s ++ xs).length / n * n) := by
+  intro xs
+  induction xs with
+  | nil =>
+    intro s hp
+    simp only [stateAfter, List.append_nil]
+    have : (pendingOf s).length / n = 0 := Nat.div_eq_of_lt hp
+    simp [this]
+  | cons x xs ih =>
+    intro s hp
+    have hacc : batchAcc n (s.getD ([], false)) x = (pendingOf s ++ [x], (pendingOf s ++ [x]).length == n) := by
+      cases s with
+      | none => simp [batchAcc, pendingOf]
+      | some bf => obtain ⟨b, fl⟩ := bf; cases fl <;> simp [batchAcc, pendingOf]
+    simp only [stateAfter, bNext, hacc]
+    by_cases hfull : (pendingOf s ++ [x]).length = n
+    · have hbeq : ((pendingOf s ++ [x]).length == n) = true := by simp only [hfull, beq_self_eq_true]
+      rw [hbeq, ih _ (by rw [pendingOf_true]; exact hn), pendingOf_true, List.nil_append]
+      have e : pendingOf s ++ x :: xs = (pendingOf s ++ [x]) ++ xs := by simp
+      rw [e]
+      have hlen : ((pendingOf s ++ [x]) ++ xs).length = xs.length + n := by
+        rw [List.length_append, hfull]; omega
+      rw [hlen, Nat.add_div_right _ hn, Nat.add_mul, Nat.one_mul, Nat.add_comm (xs.length / n * n) n]
+      rw [← List.drop_drop, List.drop_left' hfull]
+    · have hbeq : ((pendingOf s ++ [x]).length == n) = false := by
+        cases h : ((pendingOf s ++ [x]).length == n)
+        · rfl
+        · exact absurd (eq_of_beq h) hfull
+      have hlt : (pendingOf s ++ [x]).length < n := by
+        rw [List.length_append, List.length_singleton] at hfull ⊢; omega
+      rw [hbeq, ih _ (by rw [pendingOf_false]; exact hlt), pendingOf_false]
+      simp
+
+/-- **batch promptness**: while the item that follows `xs` is consumed, `batch(n)` emits the batch
+that this item completes — the last `n` items — if and only if it is the `n`-th item of its
+batch; otherwise nothing.  (Stated on the scan|filter|map state machine `bNext`, which is the
+composed operator `batchG n` by `batchG_sim`.) -/
+theorem C11_batch_prompt {α : Type} (n : Nat) (hn : 0 < n) (xs : List α) (x : α) :
+    (bNext n (stateAfter (bNext n) none xs) x).2 =
+      if xs.length % n + 1 = n then [.item (xs.drop (xs.length / n * n) ++ [x])] else [] := by
+  have hp := batch_pending n hn xs none (by simp [pendingOf]; exact hn)
+  simp only [pendingOf, List.nil_append] at hp
+  have hlen : (pendingOf (stateAfter (bNext n) none xs)).length = xs.length % n := by
+    have hpend : pendingOf (stateAfter (bNext n) none xs) = xs.drop (xs.length / n * n) := hp
+    rw [hpend, List.length_drop]
+    have := Nat.div_add_mod xs.length n
+    rw [Nat.mul_comm] at this
+    omega
+  have hacc : ∀ s : Option (List α × Bool), batchAcc n (s.getD ([], false)) x = (pendingOf s ++ [x], (pendingOf s ++ [x]).length == n) := by
+    intro s
+    cases s with
+    | none => simp [batchAcc, pendingOf]
+    | some bf => obtain ⟨b, fl⟩ := bf; cases fl <;> simp [batchAcc, pendingOf]
+  have hpend : pendingOf (stateAfter (bNext n) none xs) = xs.drop (xs.length / n * n) := hp
+  have hlen2 : (xs.drop (xs.length / n * n)).length = xs.length % n := by rw [← hpend]; exact hlen
+  simp only [bNext, hacc, List.length_append, List.length_singleton, hpend, beq_iff_eq, hlen2]
+
+/-- the chunk of the item at position `|xs|` of any longer stream is that step's output -/
+theorem C11_batch_chunk_at {α : Type} (n : Nat) (xs ys : List α) (x : α) :
+    (runRaw (bNext n) bFin none (xs ++ x :: ys)).1[xs.length]? = some (bNext n (stateAfter (bNext n) none xs) x).2 := by
+  rw [runRaw_append]
+  simp only [runRaw]
+  have := runRaw_fst_length (bNext n) bFin xs none
+  rw [List.getElem?_append_right (by omega), this]
+  simp
 
 end Rx
